@@ -81,6 +81,17 @@ Theorem C15_ratio_comparisons : forall n1 d1 n2 d2,
 Proof. exact ratio_comparisons_spec. Qed.
 Print Assumptions C15_ratio_comparisons.
 
+(* ratio_equal (a comparison of num and den) decides equality of the rational numbers, because
+   normal forms are unique *)
+Theorem C15_ratio_equal_semantic : forall n1 d1 n2 d2, normalised n1 d1 -> normalised n2 d2 ->
+  ratio_equal_m n1 d1 n2 d2 = Some (n1 * d2 =? n2 * d1)
+  /\ (n1 * d2 = n2 * d1 -> n1 = n2 /\ d1 = d2).
+Proof.
+  intros n1 d1 n2 d2 H1 H2; split;
+    [exact (ratio_equal_semantic n1 d1 n2 d2 H1 H2) | exact (normalised_unique n1 d1 n2 d2 H1 H2)].
+Qed.
+Print Assumptions C15_ratio_equal_semantic.
+
 (* hypotheses are satisfiable; near-overflow operands; negative denominators are normalised *)
 Example C15_ratio_nonvacuous :
   normalised 9223372036854775807 9223372036854775806 /\ normalised (-2) 3
